@@ -17,7 +17,8 @@
 //   2. cloning: copyRoute copies every field of Route (group is classified as registration-time only);
 //   3. re-prefixing: addPrefixToRoute gives the clone the fields that register computes for the prefixed path;
 //   4. the splice: processSubAppsRoutes replaces each mount marker by the prefixed clones of the sub-app's routes
-//      of the same method in a NEW array, keeps the tail that is still to be visited, leaves no marker behind and
+//      for the method of the same NAME (mountedStack: the two applications may have different method lists), prefixed
+//      with the marker's pattern as registered, in a NEW array, keeps the tail that is still to be visited, leaves no marker behind and
 //      numbers the positions consecutively in stack order (buildTree sorts by position, next dispatches in that
 //      order: C01).
 //
@@ -26,11 +27,12 @@
 //   getGroupPath:
 //     ensures [C04] trimmed-prefix-then-slash-path: len(path) > 0 ==> joinShape(prefix, path, result)
 //   (*App).mount:
-//     atcall (*App).register: [C04] marker-under-normalised-prefix: isTrimmed(last(@utils.TrimRight), old(prefix)) && (last(@utils.TrimRight) == "" ==> pathRaw == "/") && (last(@utils.TrimRight) != "" ==> pathRaw == last(@utils.TrimRight))
+//     atcall (*App).register: [C04] marker-under-normalised-prefix: isTrimmed(last(@utils.TrimRight), old(prefix)) && rooted(pathRaw) == rooted(last(@utils.TrimRight))
 //     atcall (*App).register: [C04] marker-of-the-sub-app: arg0 == app && group != nil && group.Prefix == pathRaw && group.app == old(subApp) && len(handlers) == 0 && len(methods) == 1 && methods[0] == "USE"
 //   (*Group).mount:
-//     atcall (*App).register: [C04] marker-under-normalised-joined-prefix: isTrimmed(last(@utils.TrimRight), joinedPath(old(grp.Prefix), old(prefix))) && (last(@utils.TrimRight) == "" ==> pathRaw == "/") && (last(@utils.TrimRight) != "" ==> pathRaw == last(@utils.TrimRight))
+//     atcall (*App).register: [C04] marker-under-normalised-joined-prefix: isTrimmed(last(@utils.TrimRight), joinedPath(old(grp.Prefix), old(prefix))) && rooted(pathRaw) == rooted(last(@utils.TrimRight))
 //     atcall (*App).register: [C04] marker-of-the-sub-app: arg0 == grp.app && group != nil && group.Prefix == pathRaw && group.app == old(subApp) && len(handlers) == 0 && len(methods) == 1 && methods[0] == "USE"
+//   (rooted(p): p with the leading slash register adds when there is none, "/" for the empty pattern - zz_contracts_c03_verif.go)
 //
 // Obligations that fail on the code because the code violates the property (replay tests in /verif/replay/known):
 //   (*App).addPrefixToRoute/post:params-are-those-of-the-prefixed-path   c04_param_prefix_test.go
@@ -215,11 +217,12 @@ package fiber
 
 // ---- 4. the splice ------------------------------------------------------------------------------------------
 //@ macro noMarkers(a) = forall(mm, 0, len(a.stack), forall(ii, 0, len(a.stack[mm]), !a.stack[mm][ii].mount))
-// A mount marker leads to its sub-application: another application with a stack table of its own, one stack per
-// method of THIS application (register makes a marker only for a group of another application).
-//@ macro markerWf(app, r) = r.group != nil && r.group.app != nil && r.group.app != app && len(r.group.app.stack) == len(app.stack) && arr(r.group.app.stack) != arr(app.stack)
+// A mount marker leads to its sub-application: another application with a stack table of its own
+// (register makes a marker only for a group of another application).
+// (The sub-application has one stack per method of ITS OWN method list - the two lists may differ, see mountedStack.)
+//@ macro markerWf(app, r) = r.group != nil && r.group.app != nil && r.group.app != app && stackPerMethod(r.group.app) && arr(r.group.app.stack) != arr(app.stack)
 //@ macro elemWf(app, r) = r != nil && allocated(r) && (r.mount ==> markerWf(app, r))
-//@ macro tablesWf(app) = forall(mm, 0, len(app.stack), (len(app.stack[mm]) > 0 ==> allocated(arr(app.stack[mm]))) && forall(ii, 0, len(app.stack[mm]), elemWf(app, app.stack[mm][ii])))
+//@ macro tablesWf(app) = stackPerMethod(app) && forall(mm, 0, len(app.stack), (len(app.stack[mm]) > 0 ==> allocated(arr(app.stack[mm]))) && forall(ii, 0, len(app.stack[mm]), elemWf(app, app.stack[mm][ii])))
 // no route object occurs twice in one stack (register appends a new Route per method, clones are new objects)
 //@ macro distinctIn(s) = forall(bb, 0, len(s), forall(aa, 0, bb, s[aa] != s[bb]))
 // ... nor in two stacks
@@ -264,6 +267,34 @@ package fiber
 //@   atcall (*App).appendSubAppLists: walks-the-roots-own-list-from-the-top: arg0 == app && appList == app.mountFields.appList && len(parent) == 0
 //@   atcall (*App).generateAppListKeys: keys-of-the-completed-list: arg0 == app && called((*App).appendSubAppLists) && closedList(app)
 //@   ensures mount-list-closed: closedList(app)
+
+// Which routes a mounted sub-application contributes to the parent's stack of method index m. The property
+// ("mounting == registering the sub-app's routes through a group"): a route the sub-app registered for GET answers
+// GET requests of the parent - the method is identified by its NAME (app.config.RequestMethods[m]), the two
+// applications may be configured with different method lists (other order, other length), so the parent's index m
+// means nothing in the sub-app's table. For a method the sub-app does not know only its middleware (Use routes,
+// registered for every method; taken from the first stack) applies, each once, in registration order.
+//@ macro subIdx(app, sub, m, ep) = methodIdx(sub, app.config.RequestMethods[m], ep)
+//@ func (*App).mountedStack
+// (engine limitation: a loop that appends to a LOCAL slice havocs the whole element heap at the loop head, so the frame of
+//  that one heap cannot be shown although invariant list-in-an-array-of-its-own proves every write goes to an array the
+//  function allocated; the frame of E_p_fiber_Route is therefore ASSUMED for this function - listed in the evidence)
+//@   nosafety frame:E_p_fiber_Route
+//@   props C04
+//@   pure
+//@   requires method-of-the-parent: 0 <= m && m < len(app.config.RequestMethods)
+//@   requires sub-app-has-a-stack-per-method: subApp != nil && stackPerMethod(subApp)
+//@   atcall (*App).methodInt: looked-up-by-the-parents-method-name: arg0 == subApp && s == old(app).config.RequestMethods[m]
+//@   loop 1
+//@     invariant only-middleware-of-the-first-stack: forall(i, 0, len(routes), exists(j, 0, rangeindex + 1, routes[i] == subApp.stack[0][j] && subApp.stack[0][j].use))
+//@     invariant all-middleware-so-far: forall(j, 0, rangeindex + 1, subApp.stack[0][j].use ==> exists(i, 0, len(routes), routes[i] == subApp.stack[0][j]))
+//@     invariant at-most-one-per-route: len(routes) <= rangeindex + 1 && rangeindex + 1 <= len(subApp.stack[0]) && len(subApp.stack) > 0
+// (append: the list grows in an array of its own, never in one that existed when the function was entered)
+//@     invariant list-in-an-array-of-its-own: cap(routes) == 0 || !wasAllocated(arr(routes))
+//@   ensures routes-of-the-method-of-the-same-name: subIdx(app, subApp, m, epoch) != -1 ==> result == subApp.stack[subIdx(app, subApp, m, epoch)]
+//@   ensures unknown-method-only-middleware: subIdx(app, subApp, m, epoch) == -1 ==> forall(i, 0, len(result), exists(j, 0, len(subApp.stack[0]), result[i] == subApp.stack[0][j] && subApp.stack[0][j].use))
+//@   ensures unknown-method-all-middleware: subIdx(app, subApp, m, epoch) == -1 && len(subApp.stack) > 0 ==> forall(j, 0, len(subApp.stack[0]), subApp.stack[0][j].use ==> exists(i, 0, len(result), result[i] == subApp.stack[0][j]))
+//@   ensures unknown-method-no-more-than-the-first-stack: subIdx(app, subApp, m, epoch) == -1 ==> (len(subApp.stack) == 0 ==> len(result) == 0) && (len(subApp.stack) > 0 ==> len(result) <= len(subApp.stack[0]))
 
 // The recursive splice of a sub-application (induction hypothesis over the mount tree, ASSUMED: the contracts do not
 // carry the induction): it writes the sub-application's own tables and route positions only, and leaves no marker.
@@ -311,10 +342,23 @@ package fiber
 //@     invariant clones-so-far: forall(jj, 0, rangeindex + 1, subRoutes[jj] != nil && allocated(subRoutes[jj]) && !wasAllocated(subRoutes[jj]) && !subRoutes[jj].mount)
 //@     invariant clones-distinct: forall(bb, 0, rangeindex + 1, forall(aa, 0, bb, subRoutes[aa] != subRoutes[bb]))
 //@     invariant clones-are-new: forall(jj, 0, rangeindex + 1, forall(mm, 0, len(app.stack), forall(ii, 0, len(app.stack[mm]), subRoutes[jj] != app.stack[mm][ii])))
-//@     invariant clones-are-prefixed-copies: forall(jj, 0, rangeindex + 1, (route.group.app.stack[m][jj] == nil || allocated(route.group.app.stack[m][jj])) &&
-//@ ..      subRoutes[jj].Handlers == route.group.app.stack[m][jj].Handlers && subRoutes[jj].use == route.group.app.stack[m][jj].use && subRoutes[jj].Method == route.group.app.stack[m][jj].Method &&
-//@ ..      subRoutes[jj].Path == joinedPath(route.path, route.group.app.stack[m][jj].Path))
-//@   atcall (*App).addPrefixToRoute: prefix-is-the-markers-key: prefix == app.stack[m][i].path && app.stack[m][i].mount && arg2 == last((*App).copyRoute)
+// the clones are prefixed copies of the routes mountedStack returned (subAppStack), in their order; the prefix is the
+// marker's pattern AS REGISTERED (Route.Path, escape characters kept: `/v1\:beta` is a literal, not the parameter
+// :beta) - the group twin registers joinedPath(group.Prefix, path) with the prefix as written
+//@     invariant clones-are-prefixed-copies: forall(jj, 0, rangeindex + 1, (subAppStack[jj] == nil || allocated(subAppStack[jj])) &&
+//@ ..      subRoutes[jj].Handlers == subAppStack[jj].Handlers && subRoutes[jj].use == subAppStack[jj].use && subRoutes[jj].Method == subAppStack[jj].Method &&
+//@ ..      subRoutes[jj].Path == joinedPath(route.Path, subAppStack[jj].Path))
+//@     invariant one-clone-per-route-of-the-sub-app: len(subRoutes) == len(subAppStack)
+// The routes cloned for the parent's method m are those the sub-app registered for the method of the same NAME (when it
+// knows the method; otherwise its middleware: contract of mountedStack). Stated for the state in which the clone loop is
+// entered (rangeindex == -1): addPrefixToRoute/parseRoute list heap(E_string) in their frame - the heap the method names
+// live in - so inside the loop app.config.RequestMethods[m] cannot be read again; the clones are tied to the slice taken
+// at entry by clones-are-prefixed-copies. The second clause says the same about the NUMBER of clones, without naming
+// the local subAppStack.
+//@     invariant clones-of-the-routes-of-the-method-of-the-same-name: rangeindex == -1 && subIdx(app, route.group.app, m, epochNow) != -1 ==> subAppStack == route.group.app.stack[subIdx(app, route.group.app, m, epochNow)]
+//@     invariant as-many-clones-as-the-method-of-the-same-name-has-routes: rangeindex == -1 && subIdx(app, route.group.app, m, epochNow) != -1 ==> len(subRoutes) == len(route.group.app.stack[subIdx(app, route.group.app, m, epochNow)])
+//@   atcall (*App).mountedStack: routes-of-the-markers-sub-app-for-this-method: app == old(app) && subApp == old(app).stack[old(m)][i].group.app && old(app).stack[old(m)][i].mount && m == old(m)
+//@   atcall (*App).addPrefixToRoute: prefix-is-the-markers-registered-pattern: prefix == app.stack[m][i].Path && app.stack[m][i].mount && arg2 == last((*App).copyRoute)
 //@   atcall (*App).copyRoute: sub-app-already-spliced: !subAppRoute.mount
 //@   ensures no-marker-left: noMarkers(app)
 //@   ensures positions-consecutive-in-stack-order: forall(mm, 0, len(app.stack), consecutive(app.stack[mm], len(app.stack[mm])))
